@@ -456,6 +456,7 @@ def check_e2e(ctx, problem, cfg, prop='C01', label='random', workdir=None,
     r = U.run_problem(problem, cfg, workdir=workdir, tmp_dir=tmp_dir)
     if keep is not None:
         keep['results'] = r['results'] if r['ok'] else None
+    U.mutation_violation(ctx, prop, r, detail)
     if not tmp_dir:
         ctx.count('e2e:tmp_dir=None')
     nontriv = U.has_choice(tree) and len(problem['cell_ids']) >= 2
